@@ -509,6 +509,24 @@ def _pd4_amounts(model, r):
 
     class Ev(SymEval):
         def transfer(self, s, st):
+            if isinstance(s, ast.Assign) and isinstance(s.value, ast.Call) and len(s.value.args) == 1 \
+                    and unparse(s.value.func) in ('copy.copy', 'copy.deepcopy') \
+                    and all(isinstance(t, (ast.Name, ast.Subscript)) for t in s.targets):
+                # X = copy.copy(Y): the copy has the text of the original (also for chained targets)
+                import copy as _c
+                src = s.value.args[0]
+                ld = ast.Attribute(value=_c.deepcopy(src), attr='txt', ctx=ast.Load())
+                ast.copy_location(ld, s)
+                ast.fix_missing_locations(ld)
+                for x in ast.walk(ld):
+                    x._parent = getattr(s, '_parent', None)
+                    x._fn = getattr(s, '_fn', None)
+                    x._mod = getattr(s, '_mod', None)
+                val = self.ev(ld, st)
+                st = super().transfer(s, st)
+                for t in s.targets:
+                    st.vars[unparse(t) + '.txt'] = val
+                return st
             if isinstance(s, ast.Assign):
                 tg = [x for t in s.targets for x in ast.walk(t)
                       if isinstance(x, ast.Attribute) and x.attr == 'txt'
